@@ -42,6 +42,12 @@ ASSUMPTIONS = [
     "for objects first seen in the snapshot by a listener registered before the bootstrap, circuit_extend calls are not judged",
     "several notifications owed for one event (e.g. circuit_new + circuit_launched) are compared as a multiset",
     "listeners are added/removed between deliveries, not inside callbacks",
+    "the CLOSED Tor sends after a FAILED for the same stream is a reported transition: every state-wide stream "
+    "listener (also one added after the FAILED) is owed exactly one stream_closed with the flags, and nothing else "
+    "(no stream_new: no NEW was reported); listeners that were registered only on the forgotten Stream object, or "
+    "had been unlistened from it, are not judged for that line",
+    "a stream first heard of after the subscription window (NEW lost) is owed the notification of the reported "
+    "status (+ stream_attach when that line names its circuit), never stream_new",
     "a close request is not made on a gone object whose id is in use again (Tor never re-uses ids that fast)",
     "values Deferreds fire with are not judged, only success/failure and the moment",
 ]
@@ -72,6 +78,7 @@ FLOORS = {
               "close_ack_before_event": 250, "close_event_before_ack": 250, "close_requested_twice": 350,
               "listeners_added_after_object": 700, "listeners_removed": 200, "repeat_groups_compared": 100,
               "histories_with_all_positions": 3,
+              "closed_after_failed_events": 100, "first_seen_in_mid_life_events": 100,
               "reach:txtorcon.circuit:Circuit.close": 450, "reach:txtorcon.stream:Stream.close": 450,
               "reach:txtorcon.circuit:Circuit.when_built": 250, "reach:txtorcon.util:SingleObserver.fire": 2100,
               "reach:txtorcon.stream:Stream._notify": 2100},
@@ -179,6 +186,7 @@ class Engine(object):
                         "s": set(case.get("pre_listeners", {}).get("s", []))}
         self.reg = {"c": {}, "s": {}}          # kind -> uid -> {listener idx: scope}
         self.removed = {"c": {}, "s": {}}      # kind -> uid -> set(listener idx)
+        self.dead_reg = {"c": {}, "s": {}}     # kind -> uid -> registrations at the moment the object went
         self.policies = {}
         self.timers = []
         self.collected = []
@@ -243,6 +251,7 @@ class Engine(object):
             self.sim.apply(a)
         self.snapshot = self.sim.take_snapshot()
         if self.dry:
+            self.sim.apply_unobserved(case.get("window", ()))
             from ..faketor.core import FakeTor
             self.tor = FakeTor()
             self.tor.authenticated = True
@@ -258,7 +267,8 @@ class Engine(object):
                 for i in sorted(self.globals["s"]):
                     state.add_stream_listener(self.slisteners[i])
             self.ses = torsim.SimSession(self.sim, boot=case["boot"], chunking=case["chunking"],
-                                         before_bootstrap=before if (self.globals["c"] or self.globals["s"]) else None)
+                                         before_bootstrap=before if (self.globals["c"] or self.globals["s"]) else None,
+                                         window=case.get("window", ()))
             self.tor = self.ses.tor
             if self.ses.state is None or self.ses.link.exceptions:
                 self.V("bootstrap-failed", "snapshot",
@@ -337,6 +347,8 @@ class Engine(object):
                     self.dry_drain()
             elif self.sim.pending:
                 self.sim.fire_pending(0)
+            elif self.sim.zombies:
+                self.sim.apply({"a": "zclose", "id": sorted(self.sim.zombies)[0]})
             else:
                 break
             self.pump("flush")
@@ -477,9 +489,27 @@ class Engine(object):
         expected = []              # (okind, listener, method, uid, extra, kw)
         unspecified = set()
         snapshot_uids = set()
+        self.ghost_ids = {}        # (okind, Tor's id) -> uid: events whose client-side object is created and dropped at once
+        self.unjudged = set()      # (okind, listener, uid)
         for ev in evs:
             okind = "c" if ev.kind == "CIRC" else "s"
             self.count("events_delivered" if not ev.snapshot else "snapshot_entries")
+            if ev.gone and (ev.first_sight or ev.ghost):
+                self.ghost_ids[(okind, ev.oid)] = ev.uid
+            if ev.first_sight and not ev.snapshot and ev.status not in ("LAUNCHED", "NEW", "NEWRESOLVE"):
+                self.count("first_seen_in_mid_life_events")
+            if ev.ghost and not ev.first_sight:
+                # trailing CLOSED of a FAILED/CLOSED pair: the Stream object the listeners knew is already
+                # forgotten.  Owed: one stream_closed to every state-wide listener; not judged: listeners that
+                # were registered on the forgotten object only, or had been unlistened from it.
+                self.count("closed_after_failed_events")
+                old = self.dead_reg[okind].get(ev.uid, {})
+                gone_from = self.removed[okind].get(ev.uid, set())
+                for l in set(old) | gone_from:
+                    if l not in self.globals[okind] or l in gone_from:
+                        self.unjudged.add((okind, l, ev.uid))
+                self.reg[okind][ev.uid] = {l: "global,object-forgotten-at-FAILED" for l in self.globals[okind]
+                                           if l not in gone_from}
             if ev.first_sight:
                 self.reg[okind][ev.uid] = {l: ("registered-before-bootstrap" if ev.snapshot else "global-before-object")
                                            for l in self.globals[okind]}
@@ -499,7 +529,8 @@ class Engine(object):
         if self.dry:
             for ev in evs:
                 if ev.gone:
-                    self.reg["c" if ev.kind == "CIRC" else "s"].pop(ev.uid, None)
+                    k = "c" if ev.kind == "CIRC" else "s"
+                    self.dead_reg[k][ev.uid] = self.reg[k].pop(ev.uid, {})
             return
         # map new objects
         for m in self.sim.circuits.values():
@@ -518,7 +549,8 @@ class Engine(object):
         self.judge_calls(evs, expected, calls, unspecified, snapshot_uids, label)
         for ev in evs:
             if ev.gone:
-                self.reg["c" if ev.kind == "CIRC" else "s"].pop(ev.uid, None)
+                k = "c" if ev.kind == "CIRC" else "s"
+                self.dead_reg[k][ev.uid] = self.reg[k].pop(ev.uid, {})
         self.judge_waits_safety(label)
         errs = self.ses.errors.take()
         if errs:
@@ -546,6 +578,13 @@ class Engine(object):
         for (okind, l, method, obj, arg, kw) in calls:
             who = self.rev.get(id(obj))
             uid = who[1] if who and who[0] == okind else None
+            if who is None:
+                # an object made for this one line and dropped again (CLOSED after FAILED, or a stream
+                # first heard of when it ended): identified by Tor's id
+                uid = self.ghost_ids.get((okind, getattr(obj, "id", None)))
+            if (okind, l, uid) in self.unjudged:
+                self.count("calls_not_judged_forgotten_object")
+                continue
             if (okind, uid) in unspecified:
                 self.count("calls_not_judged_unspecified")
                 continue
@@ -590,7 +629,8 @@ class Engine(object):
                 scope = "unlistened" if l in self.removed[okind].get(uid, ()) else (
                     "object-unknown" if uid is None else "never-registered")
             ev = [e for e in evs if e.uid == uid and ("c" if e.kind == "CIRC" else "s") == okind]
-            evname = "%s-%s%s" % (ev[0].kind, ev[0].status, ",first-sight" if ev[0].first_sight else "") if ev else "no-event"
+            evname = "%s-%s%s%s" % (ev[0].kind, ev[0].status, "-after-FAILED" if ev[0].ghost else "",
+                                    ",first-sight" if ev[0].first_sight else "") if ev else "no-event"
             if g < w:
                 clause = "notification-missing"
             elif w == 0:
@@ -725,7 +765,7 @@ def random_op(rnd, eng):
     """one operation that makes sense in the model state of the (dry) engine, or None"""
     sim = eng.sim
     live_c = list(sim.circuits.values())
-    live_s = list(sim.streams.values())
+    live_s = list(sim.known_streams().values())
     dead_c = list(getattr(sim, "dead_circuits", {}).values())[-3:]
     dead_s = list(getattr(sim, "dead_streams", {}).values())[-3:]
     r = rnd.random()
@@ -781,6 +821,10 @@ def base_case(rnd, tier):
                                  "s": sorted(rnd.sample(range(N_LISTENERS), rnd.randint(0, 2)))}
     sim = torsim.TorSim(max_circuits=limits[0], max_streams=limits[1])
     case["pre"] = sim.populate(rnd, pre_steps)
+    case["window"] = []
+    if rnd.random() < 0.3:
+        sim.take_snapshot()
+        case["window"] = sim.gen_window(rnd)
     return case
 
 
@@ -886,6 +930,7 @@ def positional_cases(rnd, tier):
     for a in case["pre"]:
         sim.apply(a)
     sim.take_snapshot()
+    sim.apply_unobserved(case["window"])
     hist = sim.generate(rnd, rnd.choice([6, 8, 10]) if tier == "quick" else rnd.choice([8, 12, 16]))
     # the object the operations are about: a circuit / stream that lives through part of the history
     uids_c = sorted({m.uid for m in list(sim.circuits.values()) + list(getattr(sim, "dead_circuits", {}).values())})
@@ -914,7 +959,8 @@ def positional_cases(rnd, tier):
 def run_case(case, rec):
     eng = Engine(case, rec)
     eng.run()
-    for k in ("circuit_id_reused", "stream_id_reused", "circuit_died_under_streams", "closecircuit_ifunused_kept"):
+    for k in ("circuit_id_reused", "stream_id_reused", "circuit_died_under_streams", "closecircuit_ifunused_kept",
+              "failed_closed_pairs", "stream_first_seen_in_mid_life"):
         if eng.sim.stats.get(k):
             rec.count(k, eng.sim.stats[k])
     rec.case(case, nontrivial=bool(eng.compared or eng.waits))
